@@ -14,6 +14,9 @@ def run(ctx):
     if ctx.replay:
         import json
         spec = (json.load(open(ctx.replay))["replay"] or {}).get("spec")
+        if spec == "NormDrop" and json.load(open(ctx.replay))["replay"].get("layer") == "drop":
+            from . import c13
+            return c13.replay_drop_file(ctx, dict(json.load(open(ctx.replay))["replay"], kinds=["dtype"]))
         if spec == "NormDrop":
             from .. import hist_common as HC
             from . import c13
@@ -37,5 +40,8 @@ def run(ctx):
                       StatsSet=c13.STATS, PDrop=[1, 2], Inputs=[], GradsIn=[], MaxHist=4, Acts={"mode", "fwd"})
         mx, table, c = HC.emit(rep, "NormDrop", "bn-dtype-" + dt, consts)
         HC.replay_all(ctx, rep, mx, table, dict(c, StatsSet=str(c["StatsSet"])), {"dtype"}, c13.RP, "NormDrop", label="bn-" + dt + ":", rkw=dict(dtype=dt), procs=8)
+    # Dropout: p = 0 and p = 1 (float and int forms) are the configurations without rescaling
+    from ..vlib import repo
+    c13.drop_history_runs(ctx, rep, repo.load(ctx.repo), {"dtype"}, 3, dtypes=("float32", "float64"), forms=(False, True), draws=1)
     rep.exhaustive = True
     return rep.finish()
